@@ -66,7 +66,7 @@ def run_real_stepwise(c):
             escs.append(e)
             alive.append(s.conns[conn].alive())
             per_step.append(s.dumps())
-        return (outs, escs, s.dumps(), alive), before, per_step
+        return (outs, escs, s.dumps(), alive, s.control()), before, per_step
     finally:
         s.close()
 
@@ -78,7 +78,7 @@ def check(ctx, rep, cases):
     for c, a in zip(cases, ans):
         real, before, per_step = run_real_stepwise(c)
         results.append((real, before, per_step))
-        outs, escs, dumps, alive = real
+        outs, escs, dumps, alive, control = real
         case = {k: c[k] for k in ('frontend', 'framer', 'single', 'units', 'ignore_missing', 'broadcast', 'chunks', 'steps')}
         case['kind'] = 'server'
         changed = any(d != before for d in per_step)
